@@ -132,6 +132,15 @@ def real(g, vertex_order):
                sorted(n for n, r in rules.items() if r.leader), [sorted(s) for s in sccs])
     except ValueError:
         res = ("valueerror",)
+    # the same rule objects analysed once more (a caller that retries after a refusal, or generates twice)
+    try:
+        graph, sccs = PG.compute_left_recursives(rules)
+        again = ("flags", sorted(n for n, r in rules.items() if r.left_recursive),
+                 sorted(n for n, r in rules.items() if r.leader), [sorted(s) for s in sccs])
+    except ValueError:
+        again = ("valueerror",)
+    if again != res:
+        res = ("unstable", res, again)
     cyc = []
     for c in comps:
         if len(c) > 1:
@@ -186,6 +195,9 @@ def run(chk: common.Check, tier: str):
         for vo, ao in combos:
             g = {v: list(a) for v, a in zip(vs0, ao)}
             comps, res, cyc = real(g, list(vo))
+            unstable = None
+            if res[0] == "unstable":
+                unstable, res = res, res[1]
             chk.count()
             desc = {"n": n, "mask": m, "vertex_order": list(vo), "adjacency": g, "implementation": res}
             nontriv = any(len(c) > 1 for c in comps_spec) or any(v in g0[v] for v in g0)
@@ -195,6 +207,8 @@ def run(chk: common.Check, tier: str):
             chk.bump("refused" if res[0] == "valueerror" else "accepted")
             # --- the property on the implementation
             probs = []
+            if unstable:
+                probs.append(f"analysing the same rule objects a second time gives {unstable[2]}, the first analysis gave {unstable[1]}")
             if sorted(map(sorted, comps_spec)) != sorted(comps):
                 probs.append(f"strongly_connected_components yields {comps}, the SCCs are {sorted(map(sorted, comps_spec))}")
             if refuse_spec != (res[0] == "valueerror"):
